@@ -611,8 +611,10 @@ def _install_ipm_events():
         ev = _IPM_EV
         if ev.get("on"):
             ev["calls"] = ev.get("calls", 0) + 1
-            if "break" not in ev and any((not math.isfinite(v)) or abs(v) > 1e100 for v in list(x) + list(z) + list(rb)):
-                ev["break"] = (ev["calls"] - 1) // 2
+            if ev["calls"] % 2 == 1:        # predictor call = top of an iteration
+                vals = list(x) + list(z)
+                fin = all(math.isfinite(v) for v in vals) and all(math.isfinite(v) for v in rb)
+                ev.setdefault("trace", []).append((max(abs(v) for v in vals) if fin else float("inf"), fin))
         return orig(A_aug, x, z, rb, rc, xz, m, n_total, eps)
 
     newton._c03_ev = True
@@ -620,7 +622,9 @@ def _install_ipm_events():
 
 
 def ipm_break_iter(case):
-    """iteration (0-based, as seen at the top of the loop) at which x / z / residual first is non-finite or > 1e100; None if never"""
+    """iterations (0-based, top of the loop) at which the iterate changes regime: first non-finite value, first magnitude > 1e100 /
+    > 1e300, and every collapse (max |x|,|z| dropping by a factor > 1e20 from one iteration to the next, e.g. after an overflow all
+    components are clamped to eps).  Empty list if the run is smooth."""
     import warnings
 
     from solvor.interior_point import solve_lp_interior
@@ -629,10 +633,21 @@ def ipm_break_iter(case):
     _IPM_EV.clear(); _IPM_EV["on"] = True
     with warnings.catch_warnings():
         warnings.simplefilter("ignore")
-        guarded(solve_lp_interior, list(case["c"]), [list(r) for r in case["A"]], list(case["b"]), minimize=case["minimize"], max_iter=60, timeout=10)
-    t = _IPM_EV.get("break")
+        guarded(solve_lp_interior, list(case["c"]), [list(r) for r in case["A"]], list(case["b"]), minimize=case["minimize"], max_iter=70, timeout=10)
+    tr = _IPM_EV.get("trace", [])
     _IPM_EV.clear()
-    return t
+    ev = []
+    for thr in (1e100, 1e300):
+        k = next((i for i, (v, f) in enumerate(tr) if f and v > thr), None)
+        if k is not None:
+            ev.append(k)
+    k = next((i for i, (v, f) in enumerate(tr) if not f), None)
+    if k is not None:
+        ev.append(k)
+    for i in range(1, len(tr)):
+        if tr[i - 1][0] > 1e20 * max(tr[i][0], 1e-300):
+            ev.append(i)
+    return sorted(set(ev))
 
 
 def gen_ipm_unb(rng):
@@ -654,11 +669,12 @@ def gen_ipm_unb(rng):
 
 def _ipm_sweep_items(case_kind):
     case, kind = case_kind
-    t = ipm_break_iter(case)
+    ts = ipm_break_iter(case)
     its = set(range(0, 41)) if kind == "full" else set()
-    if t is not None:
-        its |= {k for k in range(t - 3, t + 4) if k >= 0}
-    return [({**case, "max_iter": k}, f"sweep-{kind}" + ("-break" if t is not None and abs(k - t) <= 3 else "")) for k in sorted(its)], t
+    near = set()
+    for t in ts:
+        near |= {k for k in range(t - 2, t + 3) if k >= 0}
+    return [({**case, "max_iter": k}, f"sweep-{kind}" + ("-break" if k in near else "")) for k in sorted(its | near)], ts
 
 
 # =============================================================================== driver
@@ -681,7 +697,11 @@ def run_hard(ctx):
         "eps-threshold probes: data placed within 100x of eps = 1e-10 where the code compares INPUT data with eps; the documented default is the "
         "reference (strict corr_check against the eps = 1e-10 model); the verdict oracle accepts the exact verdict of the LP with those "
         "data rounded to 0 as well (tolerance of the property)",
-        "large instances (> 13 rows/columns) are not sent through the Coq model (vm_compute cost); they are judged by construction + verified dual",
+        "events 'art_left_basic' and 'p1_inner_unbounded' are unreachable in exact arithmetic (every row owns a slack column, so an artificial can "
+        "always be driven out; the phase-1 objective is bounded below) - they are monitored because seeing one would expose a float anomaly",
+        "interior point break-down sweep: an instrumented run locates regime changes of the iterate (first magnitude > 1e100 / 1e300, first "
+        "non-finite value, collapse by > 1e20 after an overflow is clamped to eps); max_iter is swept +-2 around each of them (histogram ipm_break_iter)",
+        "large instances (> 10 rows/columns) are not sent through the Coq model (vm_compute cost); they are judged by construction + verified dual",
     ]
     # ------------------------------------------------------------------ S: big, by construction
     big_cases = ([gen_square(ctx.rng, 17, 24) for _ in range(ctx.budget(24, 200))]
@@ -756,6 +776,9 @@ def run_hard(ctx):
             if bad2 is None or (orc2[0] != orc[0] and out.get("status") == orc2[0] and out.get("status") != "OPTIMAL"):
                 ctx.count("decimal_ambiguous" if case.get("alt") else "probe_ambiguous", orc[0] + "/" + orc2[0])
                 bad = None
+        if bad and _in_abs_eps_class(case, out, orc) and any(f.get("id") == KNOWN_ABS_EPS for f in ctx.open_findings()):
+            ctx.known_hit(KNOWN_ABS_EPS, f"solve_lp answers INFEASIBLE on a feasible LP of magnitude >= 1e4, e.g. c={case['c']} A={case['A']} b={case['b']}")
+            continue
         if bad:
             pub = {k: case[k] for k in ("c", "A", "b", "minimize", "max_iter")}
             if "eps" in case:
@@ -773,7 +796,7 @@ def run_hard(ctx):
             ctx.nontriv(json.dumps({k: case[k] for k in ("c", "A", "b", "minimize", "max_iter")}, sort_keys=True, default=str))
         ctx.traces_validated += 1
         mag = max([abs(v) for v in case["b"]] + [abs(v) for v in case["c"]] + [abs(a) for r in case["A"] for a in r] + [0])
-        key = ("probe" if case.get("probe") else ("mid" if case.get("mid") else ("big" if mag > 1e5 else "std")), case.get("eps"))
+        key = ("probe" if case.get("probe") else ("mid" if case.get("mid") else ("big" if mag > 1e4 else "std")), case.get("eps"))
         groups.setdefault(key, []).append((case, out, orc))
     unexplained = []
     COMB = "(fun k => corr_robust_check eps_default tol7 k && (cert_case_check k || negb (robust_check k)))"
@@ -784,9 +807,10 @@ def run_hard(ctx):
         sub = [terms[i] for i in failing]
         f1 = set(ctx.coq_check("hcorr", M.IMPORTS, "lp_case", "corr_robust_check eps_default tol7", sub, shard=40))
         unexplained += [("corr" if j in f1 else "cert", std_items[i]) for j, i in enumerate(failing)]
-    # magnitudes > 1e5: the certificate checker's tolerance is absolute (1e-6) and floats at 1e12 carry 1e-3: correspondence only
+    # magnitudes > 1e4: the float round-off is no longer small against the ABSOLUTE eps of the code (and of the certificate checker's
+    # tolerance): only the public result (status, objective within relative 1e-7) is compared with the model; the oracle judges as always
     big_items = groups.get(("big", None), [])
-    failing = ctx.coq_check("hmag", M.IMPORTS, "lp_case", "corr_robust_check eps_default tol7", [M.coq_case(c, o) for c, o, _ in big_items], shard=40)
+    failing = ctx.coq_check("hmag", M.IMPORTS, "lp_case", "corr_public_check eps_default tol7", [M.coq_case(c, o) for c, o, _ in big_items], shard=40)
     unexplained += [("corr", big_items[i]) for i in failing]
     # mid-size: model + proved certificate checker are the only judges of optimality besides the verified dual point
     mid_items = groups.get(("mid", None), [])
@@ -818,13 +842,14 @@ def run_hard(ctx):
     lap("types-alias")
     # ------------------------------------------------------------------ O + H: interior point sweeps
     bases = [({"c": [1, 1], "A": [[1, 2], [3, 1]], "b": [4, 6], "minimize": False}, "full"),
-             ({"c": [-2, 1, 0], "A": [[0, -1, 2]], "b": [-2], "minimize": True}, "full"),
+             ({"c": [-1, -1], "A": [[-1, 1]], "b": [1], "minimize": True}, "full"),
              ({"c": [1], "A": [[1], [-1]], "b": [1, -2], "minimize": True}, "full")]
     bases += [(M.gen_ipm(ctx.rng)[0], "full") for _ in range(ctx.budget(5, 40))]
     bases += [(gen_ipm_unb(ctx.rng), "break") for _ in range(ctx.budget(60, 600))]
     items = []
     for lst, t in pmap(_ipm_sweep_items, bases, chunksize=2):
-        ctx.count("ipm_break_iter", "none" if t is None else t)
+        for k in (t or ["none"]):
+            ctx.count("ipm_break_iter", k)
         items += lst
     for k in range(ctx.budget(30, 300)):     # eps option
         case, kind = M.gen_ipm(ctx.rng)
@@ -852,6 +877,14 @@ def run_hard(ctx):
             case, out = gate_meta[i]
             ctx.violation("gate lemma (round-2 sweep): OPTIMAL answer but Ipm.gate is false on the final iterate",
                           {"kind": "ipm", **case, "impl": {k: v for k, v in out.items() if k != "xyz"}}, no_input=True)
+
+
+KNOWN_ABS_EPS = "C03-simplex-abs-eps-magnitude"
+
+
+def _in_abs_eps_class(case, out, orc):
+    mag = max([abs(v) for v in case["b"]] + [abs(a) for r in case["A"] for a in r] + [0])
+    return out.get("status") == "INFEASIBLE" and orc[0] != "INFEASIBLE" and mag >= 1e4 and case.get("eps") is None
 
 
 def _probe_alt(case):
